@@ -711,21 +711,71 @@ func execConc(c *harness.Case, w *world, env *harness.Env) {
 				}
 			}
 		}
-		// exit whatever is still open
-		for _, m := range ents {
-			if m != nil && m.passed && !m.exited {
-				m.e.Exit()
-				m.exited = true
-				tallies[task] = append(tallies[task], tl{m.res, m.inbound, model.KComplete, int64(m.batch), m})
-				if m.lastErr != "" {
-					tallies[task] = append(tallies[task], tl{m.res, m.inbound, model.KError, int64(m.batch), m})
-				}
-			}
-		}
-		per[task] = ents
+		per[task] = ents // what the caller did not exit stays live past the concurrent phase
 	}, nil)
 	if o.Failed() {
 		return
+	}
+	// quiescent point with live entries (no call in progress): the in-flight gauges are exact
+	{
+		liveRes := make([]int, w.cfg.NRes)
+		liveIn, amb := 0, false
+		ambRes := make([]bool, w.cfg.NRes)
+		for t := range per {
+			for _, m := range per[t] {
+				if m == nil || !m.passed || m.exited {
+					continue
+				}
+				if m.panicky || m.script == sPanicCheck || m.script == sPanicPrepare {
+					ambRes[m.res] = true
+					if m.inbound {
+						amb = true
+					}
+					continue
+				}
+				liveRes[m.res]++
+				if m.inbound {
+					liveIn++
+				}
+			}
+		}
+		for r := 0; r < w.cfg.NRes; r++ {
+			if ambRes[r] {
+				continue
+			}
+			got := int32(0)
+			if n := stat.GetResourceNode(harness.ResName(r)); n != nil {
+				got = n.CurrentConcurrency()
+			}
+			if int(got) != liveRes[r] {
+				o.Fail("C01.concurrency", 0, "after the concurrent phase (no call in progress) res-%d reports concurrency %d, %d passed entries are in flight", r, got, liveRes[r])
+				return
+			}
+			if liveRes[r] > 0 {
+				o.Probe("quiescent_gauge_with_live_entries")
+			}
+		}
+		if !amb {
+			if got := stat.InboundNode().CurrentConcurrency(); int(got) != liveIn {
+				o.Fail("C01.concurrency", 0, "after the concurrent phase (no call in progress) inbound reports concurrency %d, %d passed inbound entries are in flight", got, liveIn)
+				return
+			}
+		}
+	}
+	// epilogue on one goroutine: exit whatever is still open
+	for t := range per {
+		for _, m := range per[t] {
+			if m != nil && m.passed && !m.exited {
+				if !harness.Call(o, "C01.panic", 0, func() { m.e.Exit() }) {
+					return
+				}
+				m.exited = true
+				tallies[t] = append(tallies[t], tl{m.res, m.inbound, model.KComplete, int64(m.batch), m})
+				if m.lastErr != "" {
+					tallies[t] = append(tallies[t], tl{m.res, m.inbound, model.KError, int64(m.batch), m})
+				}
+			}
+		}
 	}
 	for t, f := range fails {
 		if f != "" {
